@@ -157,7 +157,10 @@ class World(object):
         return u
 
     def quantity(self, qid, value, uidx):
-        return self.model.create_quantity(float(value), self.units[uidx])
+        v = float(value)
+        if value == 0 and qid % 2:
+            v = -0.0        # both signed zeros occur (the tree encoding has only one zero)
+        return self.model.create_quantity(v, self.units[uidx])
 
     def build(self, tree, evaluate=False):
         return bridge.reflect(tree, self.vars, self.quantity, evaluate=evaluate)
@@ -484,8 +487,34 @@ class Gen(object):
     def leaf(self, u):
         r = self.rng.random()
         if r < 0.3:
-            return self.qty(u)
+            return self.qty(u, F(0) if self.rng.random() < 0.06 else None)
         return [3, 3 * u + self.rng.choice([0, 0, 1, 2])]
+
+    def zero_like(self, n, exact):
+        """a leaf of magnitude exactly 0 (0.0 / -0.0 quantity, for dimensionless also the literals 0 and 0.0) whose
+        unit has the dimension of n (exact: also the scale); None if the unit table has no such unit"""
+        rng = self.rng
+        if not n and rng.random() < 0.3:
+            return rng.choice([[0, 0, F(0)], [0, 2, F(0)]])
+        us = self.units_like(n, exact)
+        return self.qty(rng.choice(us), F(0)) if us else None
+
+    def with_zero(self, args, n, exact, p=0.2):
+        """operands of a sum / pieces / relation sides: sometimes a zero operand, mostly in FIRST position
+        (code that tests `not quantity` looks at the magnitude)"""
+        rng = self.rng
+        if rng.random() >= p:
+            return args
+        z = self.zero_like(n, exact)
+        if z is None:
+            return args
+        args = list(args)
+        pos = 0 if rng.random() < 0.6 else rng.randrange(len(args) + 1)
+        if rng.random() < 0.7 or pos >= len(args):
+            args.insert(pos, z)
+        else:
+            args[pos] = z
+        return args
 
     def units_like(self, n, exact):
         want_d, want_s = ndims(n), nscale(n)
@@ -530,7 +559,7 @@ class Gen(object):
         if r < 0.7:
             return [7, 2, self.like(n, d - 1, exact)]
         if r < 0.85:
-            return [4, self.like(n, d - 1, exact), self.like(n, d - 1, exact)]
+            return [4] + self.with_zero([self.like(n, d - 1, exact), self.like(n, d - 1, exact)], n, exact)
         return self.piecewise(n, d, self.like(n, d - 1, exact))
 
     def cond(self, d):
@@ -541,7 +570,12 @@ class Gen(object):
         if r < 0.25 and d > 1:
             return [10, rng.choice([0, 1]), self.cond(d - 1), self.cond(d - 1)]
         a, n = self.any(max(1, d - 1))
-        b = self.like(n, max(1, d - 1), rng.random() < self.strict)
+        exact = rng.random() < self.strict
+        b = self.like(n, max(1, d - 1), exact)
+        if rng.random() < 0.15:
+            z = self.zero_like(n, exact)
+            if z is not None:
+                a, b = (z, b) if rng.random() < 0.6 else (a, z)
         return [9, rng.choice([0, 2, 3, 4, 5]), a, b]
 
     def piecewise(self, n, d, first):
@@ -552,6 +586,12 @@ class Gen(object):
             pieces.append([self.like(n, d - 1, exact), self.cond(d - 1) if rng.random() < 0.5 else [11]])
         if pieces[-1][1] != [11] and rng.random() < 0.8:
             pieces[-1][1] = [11]
+        exprs = self.with_zero([p[0] for p in pieces], n, exact)
+        if len(exprs) > len(pieces):        # a zero piece was inserted: give it a condition of its own
+            k = next(i for i in range(len(exprs)) if i >= len(pieces) or exprs[i] is not pieces[i][0])
+            pieces.insert(k, [exprs[k], self.cond(d - 1) if k < len(pieces) else [11]])
+        else:
+            pieces = [[e, p[1]] for e, p in zip(exprs, pieces)]
         return [13] + pieces
 
     def exponent(self):
@@ -588,7 +628,7 @@ class Gen(object):
             args = [a] + [self.like(n, d - 1, exact) for _ in range(rng.choice([1, 1, 2]))]
             if rng.random() < 0.25:
                 args[-1] = [5, [0, 0, F(-1)], args[-1]]
-            return [4] + args, n
+            return [4] + self.with_zero(args, n, exact), n
         if r < 0.52:
             k = rng.choice([2, 2, 3])
             parts = [self.any(d - 1) for _ in range(k)]
@@ -638,7 +678,7 @@ def mutations(rng, tree, per_leaf=2):
         other = [w for w in range(NU) if UDIMS[w] != UDIMS[u]]
         picks = []
         in_exp = any(get_at(tree, path[:k])[0] == 6 and path[k] == 2 for k in range(len(path)))
-        if same and not (in_exp and leaf[0] == 2 and leaf[2] > 8):      # no x**50: pint overflows
+        if same and not in_exp:      # exponents stay dyadic and small (no x**50, no x**1.02: float exponents in pint)
             picks.append(('scale', rng.choice(same)))
         if other and per_leaf > 1:
             picks.append(('dimension', rng.choice(other)))
